@@ -229,37 +229,44 @@ def run(ctx):
     cc.proof_part(ctx)
     found = False
     rep = 0
-    work, over = work_probe(P)
-    # the known finding F14, identified by its call site and confirmed by diagnosis on every run
-    cnt = {"yield": 0, "calls": 0}
-    origl = P.Rule.lparse
+    # the probes run in a child process under address-space and CPU limits
+    import json as _json
+    import os as _os
+    import subprocess as _sp
 
-    def counted(self, source, start):
-        cnt["calls"] += 1
-        for m in origl(self, source, start):
-            cnt["yield"] += 1
-            yield m
-    P.Rule.lparse = counted
-    try:
-        f14_plain = series_for(P, cnt, *F14_FAMILY, sizes=(8, 12, 16))
-    finally:
-        P.Rule.lparse = origl
-    f14_ratio = [f14_plain[k + 1][1] / max(1, f14_plain[k][1]) for k in range(2)]
-    with MemoisedRules(P):
-        import time as _t
-        t0 = _t.time()
-        clsm = type("Wm", (P.Rule,), {})
-        clsm.create(F14_FAMILY[0][0])
-        clsm("r").parse("a" * 40, 0)
-        f14_memo_s = _t.time() - t0
-    if f14_ratio[-1] > (16 / 12) ** 5:   # faster than n^5 between |s| = 12 and |s| = 16
-        if f14_memo_s < 5:
-            ctx.report("work is exponential on r = \"a\" r r / \"a\" (Rule.lparse calls for |s| = 8, 12, 16: %s) because Rule.lparse is not memoised"
-                       % [x[1] for x in f14_plain], {"kind": "work-known", "series": f14_plain, "with_memo_40_chars_s": f14_memo_s}, key=F14_KEY)
-        else:
-            found = True
-            ctx.report("work is exponential on r = \"a\" r r / \"a\" and memoising Rule.lparse does not help", {"kind": "work", "series": f14_plain},
-                       key="work:f14-family-other-cause")
+    def probe(mode):
+        p_ = _sp.run([lib.PY, _os.path.join(lib.VERIF, "harness", "workers", "w_work.py"), mode], env=lib.child_env(),
+                     capture_output=True, text=True, timeout=400)
+        if p_.returncode != 0:
+            return None, (p_.stderr or "")[-300:]
+        return _json.loads(p_.stdout.strip().splitlines()[-1]), None
+
+    plain, perr = probe("plain")
+    memo, merr = probe("memo")
+    if plain is None:
+        # the probes themselves blew the limits: super-polynomial work on at least one family
+        work, over, f14_plain = [], None, []
+        if memo is not None and all(max(w["ratio"]) <= 16.5 for w in memo["work_memo"]) and memo["f14_memo_s"] < 5:
+            # everything is fine once Rule.lparse is memoised: then it is only the known call-site defect... but the
+            # families of WORK_GRAMMARS are polynomial on the unchanged tree WITHOUT memoisation, so this is new
+            pass
+        found = True
+        rep += 1
+        ctx.report("work probe exceeded its memory/CPU limits (3 GB / 90 s) on inputs of at most 50 characters: %s" % (perr or "").strip()[-120:],
+                   {"kind": "work", "stderr": perr, "with_memoised_rules": memo}, key="work:probe-limits")
+        f14_memo_s = memo["f14_memo_s"] if memo else -1.0
+    else:
+        work, over, f14_plain = plain["work"], plain["over"], plain["f14_plain"]
+        f14_memo_s = memo["f14_memo_s"] if memo else 999.0
+        f14_ratio = [f14_plain[k + 1][1] / max(1, f14_plain[k][1]) for k in range(2)]
+        if f14_ratio[-1] > (16 / 12) ** 5:   # faster than n^5 between |s| = 12 and |s| = 16
+            if f14_memo_s < 5:
+                ctx.report("work is exponential on r = \"a\" r r / \"a\" (Rule.lparse calls for |s| = 8, 12, 16: %s) because Rule.lparse is not memoised"
+                           % [x[1] for x in f14_plain], {"kind": "work-known", "series": f14_plain, "with_memo_40_chars_s": f14_memo_s}, key=F14_KEY)
+            else:
+                found = True
+                ctx.report("work is exponential on r = \"a\" r r / \"a\" and memoising Rule.lparse does not help", {"kind": "work", "series": f14_plain},
+                           key="work:f14-family-other-cause")
     for w in work:
         if max(w["ratio"]) > 16.5:
             found = True
